@@ -9,6 +9,7 @@ import Bolt.Driver.Versions
 import Bolt.Driver.Check
 import Bolt.Driver.Reencode
 import Bolt.Driver.Compact
+import Bolt.Driver.Flock
 open Bolt.Driver
 
 def main (args : List String) : IO UInt32 := do
@@ -21,6 +22,7 @@ def main (args : List String) : IO UInt32 := do
   | ["cursor"] => cmdCursor; return 0
   | ["batch"] => cmdBatch; return 0
   | ["versions"] => cmdVersions; return 0
+  | ["flock"] => cmdFlock; return 0
   | ["compactmodel", path, os, limit] => cmdCompactModel path (parseNat os) (parseNat limit); return 0
   | ["reencode", path, os] => cmdReencode path (parseNat os); return 0
   | ["checkmodel", path, os, kind] => cmdCheckModel path (parseNat os) kind; return 0
